@@ -463,6 +463,13 @@ def enum_large(tier, seed):
     for k in ([700] if tier == "quick" else [684, 700, 1000]):
         for kopt in (0, 1):
             yield dict(stagger=k, kopt=kopt)
+    # few edges above, thousands of ancestry segments below: alternating unary nodes, many-tree sequences
+    for B in ([520, 1100] if tier == "quick" else [511, 512, 520, 1030, 1100, 2100, 4200]):
+        for kopt in (0, 1, 3):
+            yield dict(alternating=B, kopt=kopt)
+    for T in ([600] if tier == "quick" else [340, 600, 1100]):
+        for variant in (0, 1):
+            yield dict(many_trees=T, variant=variant, kopt=0)
 
 
 def run_large(case, ctx):
@@ -478,6 +485,19 @@ def run_large(case, ctx):
         tables = gen.build_tables(spec, tskit)
         check_simplify(ctx, tskit, spec, tables, None, decode_opts(case["kopt"]), explicit=True, via="ts",
                        tskit_genotypes=False)
+        return
+    if "alternating" in case or "many_trees" in case:
+        from ._shapes import alternating_unary_spec
+
+        if "alternating" in case:
+            spec = alternating_unary_spec(case["alternating"])
+        else:
+            from .c01 import many_trees_spec
+
+            spec = many_trees_spec(case["many_trees"], case["variant"])
+        ctx.label("shape:" + ("alternating" if "alternating" in case else "many_trees"))
+        tables = gen.build_tables(spec, tskit)
+        check_simplify(ctx, tskit, spec, tables, None, decode_opts(case["kopt"]), explicit=True, via="ts")
         return
     k = case["k"]
     spec = two_tree_spec(case["sa"], case["sb"], k, internal_samples=(k % 2 == 0))
